@@ -88,15 +88,6 @@ theorem processEvent_strip (s : BSt) (st : Stmt) : stripOut (processEvent s st).
 
 /-! ### effect of the model's primitives on the core -/
 
-theorem map_updAt {α β} (l : List α) (i : Nat) (f : α → α) (g : α → β) (hf : ∀ t, g (f t) = g t) :
-    (updAt l i f).map g = l.map g := by
-  apply List.ext_getElem?
-  intro j
-  simp only [updAt, List.getElem?_map, List.getElem?_mapIdx]
-  cases l[j]? with
-  | none => rfl
-  | some t => simp only [Option.map_some]; split <;> simp [hf]
-
 theorem core_setTh (s : BSt) (i : Nat) (f : Th → Th) (h1 : ∀ t, (f t).valid = t.valid) (h2 : ∀ t, (f t).actor = t.actor) :
     core (s.setTh i f) = core s := by
   have := map_updAt s.ths i f (fun t => (⟨t.valid, t.actor⟩ : TC)) (fun t => by simp only [h1 t, h2 t])
@@ -511,7 +502,7 @@ theorem CInv_closed : Closed CInv where
   invFlag := fun _ _ h => h
   erase := fun s i h _ _ => CInv_of_core rfl (CInv_allEmpty s h)
   reap := fun _ _ h _ _ => h
-  flagRemoval := fun _ _ _ h => h
+  flagRemoval := fun _ _ _ _ _ h _ _ => h
   flushSinks := fun s h => CInv_of_core (core_of_stripOut (flushSinks_strip s)) h
   readPrep := fun s i h => CInv_of_core (core_readPrepSt s i) h
   commit := fun s i h => CInv_of_core (core_commitSt s i) h
